@@ -15,21 +15,23 @@ fn budget(t: Tier) -> u64 {
 /// Count-dependent behaviour: one long run of distinct valid requests through 1-2 workers — at
 /// least several hundred signed batches, in a quarter of these runs more than 65536 requests —
 /// so that anything that wraps, saturates or goes stale after N requests / batches shows.
-fn gen_long(seed: u64) -> Plan {
+fn gen_long(seed: u64, idx: u64) -> Plan {
     let mut rng = Rng::derive(seed, "c09-long");
     let mut plan = Plan::new("C09", "c09.long_run", seed);
     let mut s = ServerSpec::basic(Mode::W, &random_seed_hex(&mut rng));
     s.workers = *rng.pick(&[1i64, 1, 2]);
-    s.batch_size = *rng.pick(&[1i64, 1, 2, 3, 64]);
+    // (request count, batch size, largest group) by position, so that every seed covers the same
+    // ground: small and full batches, more than 65536 requests, thousands of multi-request batches
+    let (count, bs, burst_max) = [(70_000u32, 64i64, 80u32), (70_000, 1, 2), (5_000, 1, 1), (20_000, 2, 5), (5_000, 3, 5), (20_000, 64, 80), (20_000, 3, 2)][((idx / 400) % 7) as usize];
+    s.batch_size = bs;
     s.log_level = Some(0);
     world_knobs(&mut rng, &mut plan, false);
     plan.world.cost_scale = plan.world.cost_scale.min(1000);
     plan.world.rcv_cap = 4096;
     plan.world.step_cap = 60_000_000;
     plan.server = Some(s);
-    let count = *rng.pick(&[700u32, 5_000, 20_000, 70_000]);
     let interval_ns = 60_000;
-    plan.step(6000, Action::Stream { first_sock: 0, socks: 1 + rng.below(24) as u32, ietf_permille: *rng.pick(&[0u32, 500, 500, 1000]), interval_ns, count, nonce_base: seed ^ 0x10e6, burst_max: *rng.pick(&[1u32, 2, 5, 80]) });
+    plan.step(6000, Action::Stream { first_sock: 0, socks: 1 + rng.below(24) as u32, ietf_permille: *rng.pick(&[0u32, 500, 500, 1000]), interval_ns, count, nonce_base: seed ^ 0x10e6, burst_max });
     plan.params.insert("stream_count".into(), count as i64);
     plan.world.faults_until_ms = 0;
     plan.world.horizon_ms = 6 + count as u64 * interval_ns / 1_000_000 + 1100;
@@ -38,7 +40,7 @@ fn gen_long(seed: u64) -> Plan {
 
 fn gen(seed: u64, idx: u64, _tier: Tier) -> Plan {
     if idx % 400 == 399 {
-        return gen_long(seed);
+        return gen_long(seed, idx);
     }
     let mut rng = Rng::derive(seed, "c09");
     let profile = idx % 8;
